@@ -67,6 +67,16 @@ class NativeCodeGenerator(CodeGenerator):
         if not has_safe_repr(const):
             raise nodes.Impossible()
 
+        # Fold only what native_concat can read back from the text.
+        if not isinstance(const, str):
+            try:
+                back = literal_eval(str(const))
+            except Exception:
+                raise nodes.Impossible() from None
+
+            if type(back) is not type(const) or back != const:
+                raise nodes.Impossible()
+
         if isinstance(node, nodes.TemplateData):
             return const
 
